@@ -21,8 +21,9 @@ from coqfmt import zraw, b, lst, opt, tup, s as cstr
 
 replay = common.generic_replay
 
-IMPORTS = 'Graph PeriodicTable Stereo Rdkit RdkitRegistry'
-EXTRA = '''From Gen Require Import Elements RdkitTables.
+IMPORTS = 'Graph PeriodicTable Stereo Rdkit RdkitRegistry RdkitBonds'
+EXTRA = '''From Gen Require Import Elements RdkitTables RdkitSign.
+From Model Require Import RdkitApi.
 Open Scope string_scope.
 Open Scope Z_scope.
 Definition rbond_eqb (p q : Z * Z * string) : bool :=
@@ -79,10 +80,19 @@ Definition sub_xy (a b : list (Z * Z)) : bool := forallb (fun p => existsb (xy_e
 Definition adjacency_b (g : mol) (B : list (Z * Z * Z)) : bool :=
   forallb (fun k => let p := map (fun mb => (fst mb, b_ord (snd mb))) (nbrs g k) in let q := incident k B in
                     sub_xy p q && sub_xy q p && Nat.eqb (List.length p) (List.length q)) (ids g).
-Definition reg_ok g B exp := list_eqb (pair_eqb Z.eqb (list_eqb Z.eqb)) (stereogenic_tetrahedrons_of g) exp && adjacency_b g B.
+(* + data.bonds() of the live molecule is the model function bonds_of of the printed molecule, which passes the well-formedness test
+   (hypothesis of C20_bonds_of_adjacency / C20_bridge_tetrahedra_end_to_end_wf) *)
+Definition reg_ok g B exp := list_eqb (pair_eqb Z.eqb (list_eqb Z.eqb)) (stereogenic_tetrahedrons_of g) exp && adjacency_b g B &&
+  list_eqb cbond_eqb (bonds_of g) B && wf_mol g.
 Definition plain_ok a bb exp := Bool.eqb (uses_plain_order a bb) exp.
 Definition ringb_ok sizes exp := Bool.eqb (ring_bond_chiral sizes) exp.
 Definition rbo_ok t exp := pyres_eqb Z.eqb (rdkit_bond_order t) exp.
+(* direct calls of the two sign functions against their TRANSLATED bodies (Gen.RdkitSign), every argument shape incl. s = None *)
+Definition lab_of (t : list (Z * Z * option bool)) (i j : Z) : pyres (option bool) :=
+  match pget t (i, j) with Some v => Ok v | None => Err KeyError end.
+Definition sth_ok hs th lab n env s exp := pyres_eqb (option_eqb Bool.eqb) (g_translate_th (isH_of hs) th lab n env s) exp.
+Definition sct_ok hs ct centers bl n m nn nm s exp :=
+  pyres_eqb (option_eqb Bool.eqb) (g_translate_ct (isH_of hs) ct centers (lab_of bl) n m nn nm s) exp.
 Definition bt_ok o exp := pyres_eqb String.eqb (bond_type o) exp.
 '''
 
@@ -428,6 +438,79 @@ def corr_registry(cs, tag, m):
     ck.case(('registry', tag), nontrivial=bool(reg))
 
 
+def corr_sign_calls(cs, tag, m):
+    """direct calls of MoleculeStereo._translate_tetrahedron_sign / _translate_cis_trans_sign on the live molecule, with neighbour lists
+    and reference atoms the bridge never passes (other atoms of the molecule, wrong lengths, exchanged ends, s = None), against the
+    bodies translated from the source (Gen.RdkitSign): ties the API reading of coq/model/RdkitApi.v in every branch"""
+    ck = cs.ck
+    budget = 5000 if ck.tier == 'thorough' else 700
+    if getattr(cs, 'sign_calls', 0) >= budget:
+        return
+    try:
+        th = dict(m.stereogenic_tetrahedrons)
+        ct = dict(m.stereogenic_cis_trans)
+        centers = dict(m._stereo_cis_trans_centers)
+        atoms = [n for n, _ in m.atoms()]
+        hs = [n for n, a in m.atoms() if a.atomic_number == 1]
+    except Exception:
+        return
+    if not atoms or (not th and not ct) or len(atoms) > 60:
+        return
+    rng = cs.rng
+    th_t = lst(list(th.items()), lambda kv: tup(zraw(kv[0]), lst(kv[1], zraw)))
+    ct_t = lst(list(ct.items()), lambda kv: tup(zraw(kv[0][0]), zraw(kv[0][1]), env_term(kv[1])))
+    ce_t = lst(list(centers.items()), lambda kv: tup(zraw(kv[0]), pair_term(kv[1])))
+    bl = {}
+    for i, j in set(centers.values()):
+        try:
+            bl[(i, j)] = bl[(j, i)] = m.bond(i, j).stereo
+        except Exception:
+            pass
+    bl_t = lst(list(bl.items()), lambda kv: tup(zraw(kv[0][0]), zraw(kv[0][1]), opt(kv[1], b)))
+
+    def outcome(fn, *a):
+        try:
+            r = fn(*a)
+        except Exception as e:
+            return 'Err ' + exn_name(e), False
+        return f'Ok {opt(r, b)}', True
+
+    for n in rng.sample(sorted(th), min(2, len(th))) + ([rng.choice(atoms)] if rng.random() < 0.2 else []):
+        nbs = list(m._bonds[n])
+        for _ in range(5):
+            if rng.random() < 0.6 and len(nbs) >= 3:      # an arrangement of the neighbours (all of them, or three)
+                env = rng.sample(nbs, rng.choice((3, len(nbs))))
+            else:
+                k = rng.choice((3, 3, 4, 4, 4, 2, 5))
+                pool = nbs if rng.random() < 0.7 else nbs + [rng.choice(atoms)]
+                env = [rng.choice(pool) for _ in range(k)] if rng.random() < 0.25 or len(pool) < k else rng.sample(pool, k)
+            s = rng.choice((None, True, False))
+            lab = m.atom(n).stereo
+            got, ok = outcome(m._translate_tetrahedron_sign, n, env, s)
+            cs.add(f'sth_ok {lst(hs, zraw)} {th_t} {opt(lab, b)} {zraw(n)} {lst(env, zraw)} {opt(s, b)} ({got})', (tag, 'sign-call-th', n, env, s, got))
+            cs.sign_calls = getattr(cs, 'sign_calls', 0) + 1
+            ck.count('sign-call:th:' + (got if not ok else 'Ok') + (':s=None' if s is None else ''))
+            ck.case(('sign-th', tag, n, tuple(env), s), nontrivial=ok)
+    for key in rng.sample(sorted(ct), min(2, len(ct))) + ([(rng.choice(atoms), rng.choice(atoms))] if rng.random() < 0.2 else []):
+        n, mm = key
+        near = [x for x in list(m._bonds.get(n, ())) + list(m._bonds.get(mm, ())) if x not in key] or atoms
+        for _ in range(6):
+            a, c = (n, mm) if rng.random() < 0.5 else (mm, n)
+            if rng.random() < 0.6:                        # a substituent of each end (explicit hydrogens included)
+                nn = rng.choice([x for x in m._bonds.get(a, ()) if x != c] or near)
+                nm = rng.choice([x for x in m._bonds.get(c, ()) if x != a] or near)
+            else:
+                nn = rng.choice(near) if rng.random() < 0.85 else rng.choice(atoms)
+                nm = rng.choice(near) if rng.random() < 0.85 else rng.choice(atoms)
+            s = rng.choice((None, True, False))
+            got, ok = outcome(m._translate_cis_trans_sign, a, c, nn, nm, s)
+            cs.add(f'sct_ok {lst(hs, zraw)} {ct_t} {ce_t} {bl_t} {zraw(a)} {zraw(c)} {zraw(nn)} {zraw(nm)} {opt(s, b)} ({got})',
+                   (tag, 'sign-call-ct', a, c, nn, nm, s, got))
+            cs.sign_calls = getattr(cs, 'sign_calls', 0) + 1
+            ck.count('sign-call:ct:' + (got if not ok else 'Ok') + (':s=None' if s is None else ''))
+            ck.case(('sign-ct', tag, a, c, nn, nm, s), nontrivial=ok)
+
+
 def corr_chiral_order(cs, tag, m):
     """the entry test of _chiral_morgan on a fresh copy of m: the stereo-blind order object itself is returned exactly when the
     molecule has no labelled atom and no labelled bond"""
@@ -460,6 +543,10 @@ def corr_to(cs, tag, m, keep=True):
     corr_ring_bonds(cs, tag, m)
     corr_chiral_order(cs, tag, m)
     corr_registry(cs, tag, m)
+    try:
+        corr_sign_calls(cs, tag, m)
+    except Exception as e:          # a molecule the registries cannot be read from: not an input of this comparison
+        ck.count('sign-call:skipped ' + type(e).__name__)
     tap = TapTo()
     rd = tap.run(m, keep_mapping=keep)
     meta = (tag, 'to', keep)
@@ -1858,10 +1945,139 @@ def search(ck, n_corpus, extra=()):
 
 
 # ---------------------------------------------------------------------------------------------------------------
+# the body translator really reads the statements it claims to translate: each of these one-token edits of a scratch copy of
+# utils/rdkit.py must change the generated text or stop the translator (the edits are of the decision-carrying tokens of every
+# translated body; /repo itself is not touched)
+BODY_EDITS = [
+    ('if a.charge:', 'if a.isotope:'), ('if a.isotope:', 'if a.charge:'), ('ra.SetNumRadicalElectrons(1)', 'ra.SetNumRadicalElectrons(2)'),
+    ('ra.SetNumExplicitHs(a.implicit_hydrogens)', 'ra.SetNumExplicitHs(a.charge)'), ('if keep_mapping:', 'if a.is_radical:'),
+    ('not in _inorganic', 'in _inorganic'), ('data.atom(n).atomic_symbol', 'data.atom(m).atomic_symbol'), ('n, m = m, n  #', 'n, m = n, m  #'),
+    ('mol.AddBond(mapping[n], mapping[m]', 'mol.AddBond(mapping[m], mapping[n]'),
+    ('_chiral_ccw if s else _chiral_cw', '_chiral_cw if s else _chiral_ccw'), ('if n not in data.stereogenic_tetrahedrons:', 'if n in data.stereogenic_tetrahedrons:'),
+    ('if a.stereo is None:', 'if a.stereo is not None:'), ('_cis if b.stereo else _trans', '_trans if b.stereo else _cis'),
+    ('rb.SetStereoAtoms(mapping[n1], mapping[m1])', 'rb.SetStereoAtoms(mapping[m1], mapping[n1])'), ('or m not in nm', 'or m in nm'),
+    ('data._stereo_cis_trans_centers.get(n)', 'data._stereo_cis_trans_centers.get(m)'),
+    ('ra.GetIsotope() or None', 'ra.GetIsotope()'), ('charge=ra.GetFormalCharge()', 'charge=ra.GetAtomMapNum()'),
+    ('bool(ra.GetNumRadicalElectrons())', 'bool(ra.GetFormalCharge())'), ('ra.GetNumExplicitHs() + ra.GetNumImplicitHs()', 'ra.GetNumExplicitHs()'),
+    ('s == _chiral_ccw', 's == _chiral_cw'), ('if s in (_chiral_cw, _chiral_ccw):', 'if s in (_chiral_cw,):'),
+    ('mapping[b.GetBeginAtomIdx()], mapping[b.GetEndAtomIdx()]', 'mapping[b.GetEndAtomIdx()], mapping[b.GetBeginAtomIdx()]'),
+    ('_rdkit_bond_map[b.GetBondType()]', '_rdkit_bond_map[b.GetStereo()]'), ('s == _cis', 's == _trans'), ('mapping[nn], mapping[nm]', 'mapping[nm], mapping[nn]'),
+    ('mol._translate_cis_trans_sign(n, m, nn, nm, s)', 'mol._translate_cis_trans_sign(m, n, nn, nm, s)'),
+    ('[mapping[x] for x in env], s)', '[mapping[x] for x in env], not s)'), ('except KeyError:\n            pass\n    for n, m, nn', 'except ValueError:\n            pass\n    for n, m, nn'),
+    ('if tetrahedron_stereo or cis_trans_stereo:', 'if tetrahedron_stereo and cis_trans_stereo:'), ('if tetrahedron_stereo or cis_trans_stereo:', 'if cis_trans_stereo:'),
+    ('mol.fix_structure(recalculate_hydrogens=False)', 'mol.fix_structure()'),
+    # the statements that are not translated are pinned as text (skeleton of the two functions)
+    ('force=True', 'force=False'), ('    SanitizeMol(mol)\n', ''), ('cs[0].GetPositions()', 'cs[-1].GetPositions()'), ('if c.Is3D():', 'if not c.Is3D():'),
+    ('enumerate(c.GetPositions(), 1)', 'enumerate(c.GetPositions())'), ('inverted = {v: k for k, v in mapping.items()}', 'inverted = {k: v for k, v in mapping.items()}'),
+    ('from ..periodictable import Element', 'from ..periodictable import Element as E0\nElement = E0')]
+
+
+# the same for tools/gen_rdkit_sign.py (stereo.py); (old, new, occurrence index or None = the only one)
+SIGN_EDITS = [
+    ('if len(order) == 3:', 'if len(order) == 4:', None), ('if len(env) == 4:  # hydrogen', 'if len(env) == 3:  # hydrogen', None),
+    ('elif len(env) != 3:', 'elif len(env) != 4:', None), ('elif len(env) not in (3, 4):', 'elif len(env) not in (3,):', None),
+    ('order = (*order, next(x for x in env if self._atoms[x] == H))', 'order = (next(x for x in env if self._atoms[x] == H), *order)', None),
+    ('except StopIteration:\n                    raise KeyError', 'except StopIteration:\n                    raise ValueError', None),
+    ('for x in env[:3])', 'for x in env[1:])', None), ('if _tetrahedron_translate[translate]:\n            return not s\n        return s',
+                                                        'if _tetrahedron_translate[translate]:\n            return s\n        return not s', None),
+    ('n0, n1, n2, n3 = self.stereogenic_cis_trans[(m, n)]\n            n, m = m, n', 'n0, n1, n2, n3 = self.stereogenic_cis_trans[(m, n)]\n            n, m = n, m', None),
+    ('nn, nm = nm, nn\n\n        if s is None:\n            i, j', 'nn, nm = nn, nm\n\n        if s is None:\n            i, j', None),
+    ('if nn == n0:  # same start', 'if nn == n1:  # same start', None), ('elif nn == n1:\n            t0 = 1', 'elif nn == n1:\n            t0 = 0', None),
+    ('elif nn == n2 or n2 is None and self._atoms[nn] == H:\n            t0 = 2', 'elif nn == n2 or n3 is None and self._atoms[nn] == H:\n            t0 = 2', None),
+    ('elif nn == n3 or n3 is None and self._atoms[nn] == H:\n            t0 = 3', 'elif nn == n3 and n3 is None and self._atoms[nn] == H:\n            t0 = 3', None),
+    ('            if nm == n1:\n                t1 = 1', '            if nm == n1:\n                t1 = 3', 0),
+    ('            if nm == n1:\n                t1 = 1', '            if nm == n3:\n                t1 = 1', 1),
+    ('            if nm == n0:\n                t1 = 0', '            if nm == n0:\n                t1 = 2', 0),
+    ('            if nm == n0:\n                t1 = 0', '            if nm == n2:\n                t1 = 0', 1),
+    ('elif nm == n3 or n3 is None and self._atoms[nm] == H:\n                t1 = 3', 'elif nm == n3 or n3 is None and self._atoms[nn] == H:\n                t1 = 3', 0),
+    ('elif nm == n2 or n2 is None and self._atoms[nm] == H:\n                t1 = 2', 'elif nm == n2:\n                t1 = 2', 1),
+    ('if _alkene_translate[(t0, t1)]:\n            return not s\n        return s', 'if _alkene_translate[(t1, t0)]:\n            return not s\n        return s', None),
+    ('if _alkene_translate[(t0, t1)]:\n            return not s\n        return s', 'if _alkene_translate[(t0, t1)]:\n            return s\n        return not s', None)]
+
+
+CONF_EDITS = [('(a.x, a.y, 0)', '(a.y, a.x, 0)', None), ('conf.SetAtomPosition(mapping[n], (a.x', 'conf.SetAtomPosition(n, (a.x', None),
+              ('conf.Set3D(False)', 'conf.Set3D(True)', None), ('conf.SetAtomPosition(mapping[n], xyz)', 'conf.SetAtomPosition(n, xyz)', None),
+              ('for n, xyz in c.items():', 'for xyz, n in c.items():', None), ('conf.Set3D(False)\n    mol.AddConformer(conf, assignId=True)', 'conf.Set3D(False)', None)]
+
+
+REG_EDITS = [('if atom == C and not atom.charge and not atom.is_radical:', 'if atom == C and not atom.is_radical:', None),
+             ('if atom == C and not atom.charge', 'if atom == H and not atom.charge', None), ('if all(b == 1 for b in env.values()):', 'if any(b == 1 for b in env.values()):', None),
+             ('if all(b == 1 for b in env.values()):', 'if all(b == 2 for b in env.values()):', None), ('if sum(int(b) for b in env.values()) > 4:', 'if sum(int(b) for b in env.values()) > 3:', None),
+             ('if any(not atoms[x].is_forming_single_bonds for x in bonds[n]):', 'if all(not atoms[x].is_forming_single_bonds for x in bonds[n]):', None),
+             ('env = tuple(x for x in bonds[n] if atoms[x] != H)', 'env = tuple(x for x in bonds[n] if atoms[x] != C)', None),
+             ('env = tuple(x for x in bonds[n] if atoms[x] != H)', 'env = tuple(x for x in bonds[n])', None),
+             ('if len(env) in (3, 4):\n                tetrahedrons[n] = env', 'if len(env) in (4,):\n                tetrahedrons[n] = env', None),
+             ('continue  # skip metal-carbon complexes', 'pass', None)]
+
+
+def _replace_nth(src, old, new, k, region=None):
+    if region is not None:                  # the edit applies inside the translated functions only
+        start, stop = region
+        if start not in src or stop not in src[src.index(start):]:
+            return None
+        i = src.index(start)
+        j = i + src[i:].index(stop)
+        mid = _replace_nth(src[i:j], old, new, k)
+        return None if mid is None else src[:i] + mid + src[j:]
+    parts = src.split(old)
+    if k is None:
+        return src.replace(old, new) if len(parts) == 2 else None
+    if len(parts) <= k + 1:
+        return None
+    return old.join(parts[:k + 1]) + new + old.join(parts[k + 1:])
+
+
+def translator_sensitivity(ck):
+    import os
+    import shutil
+    import tempfile
+    import gen_rdkit_body
+    import gen_rdkit_sign
+    import gen_rdkit_conf
+    import gen_rdkit_registry
+    from coqfmt import TranslatorError
+    for gen, rel, edits, region in (
+            (gen_rdkit_body, 'chython/utils/rdkit.py', [(a, b_, None) for a, b_ in BODY_EDITS], None),
+            (gen_rdkit_conf, 'chython/utils/rdkit.py', CONF_EDITS, None),
+            (gen_rdkit_registry, 'chython/algorithms/stereo.py', REG_EDITS, ('def tetrahedrons', 'def stereogenic_cumulenes')),
+            (gen_rdkit_sign, 'chython/algorithms/stereo.py', SIGN_EDITS, ('def _translate_tetrahedron_sign', 'def _translate_allene_sign'))):
+        src = open(os.path.join(common.REPO, rel)).read()
+        try:
+            base = repr(gen.bodies(common.REPO))
+        except Exception:
+            continue                    # the translator already failed closed (reported by standard_proof_steps)
+        blind = []
+        tmp = tempfile.mkdtemp(prefix='c20_body_')
+        try:
+            os.makedirs(os.path.dirname(os.path.join(tmp, rel)))
+            for old, new, k in edits:
+                text = _replace_nth(src, old, new, k, region)
+                if text is None:
+                    continue            # the source moved on: the edit no longer applies (the translated text is still tied by the theorems)
+                with open(os.path.join(tmp, rel), 'w') as f:
+                    f.write(text)
+                try:
+                    if repr(gen.bodies(tmp)) == base:
+                        blind.append(f'{old!r} -> {new!r}')
+                except (TranslatorError, SyntaxError):
+                    pass
+                ck.count(f'translator sensitivity edits of {rel} ({gen.__name__})')
+        finally:
+            shutil.rmtree(tmp, ignore_errors=True)
+        ck.oblige(f'tools/{gen.__name__}.py reads every decision-carrying token of the translated bodies of {rel} (one-token edits of a scratch copy change the '
+                  'generated text or stop the translator)', not blind, 'machinery', '; '.join(blind))
+        if blind:
+            ck.unchecked(f'translator {gen.__name__} blind to an edit', '; '.join(blind))
+
 
 def run(ck):
     ck.trusted += ['translators tools/gen_rdkit_tables.py (Python ast: two dict displays, one set display, four enum constants of utils/rdkit.py), '
                    'tools/gen_rdkit_consts.py (Python ast: constants and test shapes of stereo.py and the charge setter of element.py), '
+                   'tools/gen_rdkit_body.py (Python ast: the four loop bodies of to_rdkit_molecule and the four loop bodies + tail of from_rdkit_molecule, statement by '
+                   'statement into the error monad; the reading of the RDKit / chython API names is coq/model/RdkitApi.v), '
+                   'tools/gen_rdkit_conf.py (same translation, conformer statements of to_rdkit_molecule; Conformer API reading coq/model/RdkitConfApi.v), '
+                   'tools/gen_rdkit_registry.py (Python ast: the loop bodies of MoleculeStereo.tetrahedrons / stereogenic_tetrahedrons with their comprehensions), '
+                   'tools/gen_rdkit_sign.py (Python ast: the bodies of _translate_tetrahedron_sign and _translate_cis_trans_sign of stereo.py, continuation style), '
                    'tools/gen_stereo.py, tools/gen_elements.py',
                    'correspondence runner harness/checks/C20.py (taps on SanitizeMol / fix_structure, printers) + harness/coqcases.py',
                    'CachedMethods shim harness/boot.py', 'CPython 3.12.1',
@@ -1877,7 +2093,8 @@ def run(ck):
                         'the bridge\'s own outputs fed back, ~190 malformed RDKit and chython molecules; non-trivial = the transfer succeeded / the centre carries a label. '
                         'search: the same pools plus larger corpus samples through both directions and both round trips; non-trivial = accepted by both toolkits')
     quick = ck.tier == 'quick'
-    proved = common.standard_proof_steps(ck, translators=['rdkit_tables', 'rdkit_consts', 'stereo', 'elements'])
+    proved = common.standard_proof_steps(ck, translators=['rdkit_tables', 'rdkit_consts', 'rdkit_body', 'rdkit_sign', 'rdkit_conf', 'rdkit_registry', 'stereo', 'elements'])
+    translator_sensitivity(ck)
     good, bad, log, suspects = correspondence(ck, 12 if quick else 150)
     if not good:
         # directed search: the property-level oracles on (and around: all forms, renumberings, RDKit variants of) the disagreeing inputs first
